@@ -63,6 +63,14 @@ def main():
         print(sid, 'confirmed' if ok else 'NOT CONFIRMED', json.dumps(res))
         return 0 if ok else 1
     finally:
+        for pid in os.listdir('/proc'):
+            if pid.isdigit() and int(pid) != os.getpid():
+                try:
+                    with open('/proc/%s/cmdline' % pid, 'rb') as f:
+                        if copy.encode() in f.read():
+                            os.kill(int(pid), 9)
+                except OSError:
+                    pass
         shutil.rmtree(copy, ignore_errors=True)
 
 
